@@ -581,7 +581,10 @@ func genExtract(t *rapid.T) *ExtractCase {
 	if rapid.IntRange(0, 5).Draw(t, "deep?") == 0 {
 		c.DirDepth = rapid.SampledFrom([]int{1, 12, 20}).Draw(t, "depth")
 	}
-	c.Death = rapid.SampledFrom([]string{"kill", "kill", "kill", "err", "strace-kill", "strace-kill", "strace-err"}).Draw(t, "death")
+	c.Death = rapid.SampledFrom([]string{"kill", "kill", "kill", "err", "err", "sigint", "sigterm", "strace-kill", "strace-kill", "strace-kill", "strace-err"}).Draw(t, "death")
+	if c.signal() != 0 { // graceful stops: only the re-run demand of -k is C08's (exit codes and clean-up are C07's)
+		c.Inplace = true
+	}
 	if c.straced() { // final_test.go: the whole run under strace, one call killed or failed
 		fams := []string{"rename", "rename", "unlink", "unlink", "truncate", "open", "open", "link", "chmod"}
 		if c.Death == "strace-err" {
@@ -611,9 +614,9 @@ var spec = &hx.Spec[Case]{
 	Level: "fault_enumeration",
 	Rule: "store cases = (1..4 chunks, compressed or not, 1 pinned writer or 2..4 concurrent writers incl. the same chunk from several, optional pre-existing chunk/prefix directory, " +
 		"crash point = SIGKILL at the entry of the c-th mkdirat/openat/write/close/renameat/unlinkat of the writer thread (strace inject), or RLIMIT_FSIZE=b with and without a kill at the write that follows the cut one); " +
-		"extract cases = (1..10 chunk positions over 1..7 distinct chunks, -n 1..4, with/without -k, digest sha512-256 or sha256 (index, store objects and --digest), destination name blob or 200/243/244/250/255 bytes long (from 244 on a temporary .<name>.<random> has no room) optionally 1..20 directories of 100 bytes deep, prior destination absent/empty/garbage/partly right/complete, SIGKILL while the k-th chunk request is held, or a 404 on it, " +
+		"extract cases = (1..10 chunk positions over 1..7 distinct chunks, -n 1..4, with/without -k, digest sha512-256 or sha256 (index, store objects and --digest), destination name blob or 200/243/244/250/255 bytes long (from 244 on a temporary .<name>.<random> has no room) optionally 1..20 directories of 100 bytes deep, prior destination absent/empty/garbage/partly right/complete, SIGKILL while the k-th chunk request is held, or a 404 on it, or (-k) SIGINT/SIGTERM while it is held and the request answered afterwards, " +
 		"or the whole extract under strace -f with all requests answered and the c-th (per thread) open*/truncate/unlink*/rename*/link*/chmod* call killed at its entry or failed with EIO/EXDEV/ENOSPC/EACCES: " +
-		"oracle for non -k = destination byte- and inode-identical to before, or the complete blob once a rename/link onto it was seen to return 0; for -k the re-run oracle). " +
+		"oracle for non -k = destination byte- and inode-identical to before, or the complete blob once a rename/link onto it was seen to return 0; for -k the re-run oracle: completes with the right bytes and requests no chunk that the file left behind holds at all its positions, nor - one worker - any chunk that lies entirely in front of the k-th requested one). " +
 		"non-trivial = the store child died while a temporary created by StoreChunk existed and was not yet renamed (seen in the strace log) or a write was cut at 0 < b < stored length; " +
 		"extract died after >=1 and before the last distinct chunk was served, or (strace modes) died at/after a call that names a path in the output directory. distinct by (content hash, mode, syscall, count, b) / (shape, n, k, mode, prior, chunks served, syscall set, c, errno)",
 	Assumptions: []string{
@@ -622,6 +625,7 @@ var spec = &hx.Spec[Case]{
 		"chunk files are validated with klauspost zstd and crypto/sha512 directly; a name is a chunk name if it is <64 hex>[.cacnk]",
 		"leftovers are looked for in the store, in the child's TMPDIR and in its working directory",
 		"extract: death is SIGKILL while the harness' HTTP server holds a chunk request, plus self-inflicted death on a 404; SIGINT/SIGTERM belong to C07",
+		"-n 1: the single worker takes the index in order and requests a chunk only after everything in front of it was written (pwrite returned), so the chunks in front of the k-th requested one count as written by the stopped run whatever is found afterwards",
 		"long destination names: a run that refuses the name (non-zero exit, 'file name too long') counts as a death like any other - the destination must be as before; success is not demanded",
 		"extract under strace: when= counts per thread and the Go runtime places the work freely, so (syscall, c) = the first thread reaching its c-th call; c runs to the process-wide total of the dry run; the call really hit is read from the log. Only directory-visible calls are crash points there (data writes are covered by the request-held kills)",
 	},
@@ -630,6 +634,7 @@ var spec = &hx.Spec[Case]{
 		"store:killed-at=mkdirat", "store:killed-at=openat", "store:killed-at=write", "store:killed-at=close", "store:killed-at=renameat", "store:killed-at=unlinkat",
 		"extract:inplace-died-midway", "extract:tmpfile-died-midway", "extract:prior=absent", "extract:prior=partial", "extract:prior=garbage", "extract:n>1", "extract:death=kill", "extract:death=err",
 		"extract:rerun-with-some-present", "extract:digest=sha256", "extract:digest=sha256:inplace-rerun",
+		"extract:inplace:new-path:err-midway:rerun", "extract:death=sigint", "extract:death=sigterm", "extract:stopped-by-signal", "extract:rerun-after-known-writes",
 		"extract:dest-name>=244", "extract:dest-name>=244:prior-exists", "extract:dest-name=243", "extract:deep-dir",
 		"extract:death=strace-kill", "extract:death=strace-err", "extract:final-phase-kill", "extract:killed-at-rename", "extract:rename-failed", "extract:inplace-syscall-death"},
 	Gen: genCase,
@@ -922,6 +927,26 @@ func enumNames() (cases []Case) {
 	return cases
 }
 
+// enumStops: an in-place extract to a new path stopped without SIGKILL (404 on the k-th request,
+// SIGINT/SIGTERM while it is held), one worker, every k: what was written must survive for the re-run.
+func enumStops() (cases []Case) {
+	for li, l := range enumLayouts() {
+		for _, prior := range []string{"absent", "empty"} {
+			for _, death := range []string{"err", "sigint", "sigterm"} {
+				for _, dg := range []string{"", "sha256"} {
+					if dg != "" && (li != 0 || death == "sigterm" || prior == "empty") {
+						continue
+					}
+					for k := 1; k <= len(l.layout)+1; k++ {
+						cases = append(cases, Case{Part: "extract", Extract: &ExtractCase{Chunks: l.chunks, Layout: l.layout, N: 1, K: k, Inplace: true, Death: death, Prior: prior, Digest: dg}})
+					}
+				}
+			}
+		}
+	}
+	return cases
+}
+
 func enumExtract() (cases []Case) {
 	layouts := enumLayouts()
 	ns := hx.Pick([]int{1, 3}, []int{1, 2, 3, 4})
@@ -980,7 +1005,7 @@ func TestEnum(t *testing.T) {
 	if t.Failed() {
 		return
 	}
-	ex := append(enumExtract(), enumNames()...)
+	ex := append(append(enumExtract(), enumNames()...), enumStops()...)
 	var my []Case
 	for _, c := range ex {
 		if mine() {
@@ -992,7 +1017,7 @@ func TestEnum(t *testing.T) {
 		return
 	}
 	hx.AddNote("enumerated_extract_kill_points", len(my))
-	hx.Exhaustive("extract: every request index k for two fixed layouts x listed (n, -k, prior, death) grid, + digest sha256 for the -k kills; + destination names of 200/243/244/250/255 bytes (also 15..20 directories deep) x every k for the first layout")
+	hx.Exhaustive("extract: every request index k for two fixed layouts x listed (n, -k, prior, death) grid, + digest sha256 for the -k kills; + destination names of 200/243/244/250/255 bytes (also 15..20 directories deep) x every k for the first layout; + -k to a new path (absent/empty), n=1, 404 or SIGINT or SIGTERM at every k")
 	for i, base := range enumFinalConfigs() {
 		if !mine() {
 			continue
